@@ -136,7 +136,7 @@ def shortmsg_theorems(ctx):
                 ["Inv"], tag="MC_ShortMsg")
 
 
-def _corrupt_cell(lo, hi, valid_len=85):
+def _corrupt_cell(lo, hi, valid_len=97):
     def f(rows, rng):
         cand = [i for i, r in enumerate(rows) if len(r) >= valid_len]
         if not cand:
@@ -151,7 +151,7 @@ def _corrupt_cell(lo, hi, valid_len=85):
 def c01(ctx):
     shortmsg_theorems(ctx)
     d, f, n = run_table(ctx, "short")
-    table_canary(ctx, d, "short", _corrupt_cell(76, 82))          # structured->raw bytes
+    table_canary(ctx, d, "short", _corrupt_cell(77, 83))          # structured->raw bytes
     shutil.rmtree(d, ignore_errors=True)
     d2, f2, n2 = run_table(ctx, "structured")
     shutil.rmtree(d2, ignore_errors=True)
@@ -167,7 +167,7 @@ def c01(ctx):
 def c02(ctx):
     shortmsg_theorems(ctx)
     d, f, n = run_table(ctx, "short")
-    table_canary(ctx, d, "short", _corrupt_cell(8, 22))           # an accessor of the raw vector
+    table_canary(ctx, d, "short", _corrupt_cell(9, 23))           # an accessor of the raw vector
     shutil.rmtree(d, ignore_errors=True)
     d2, f2, n2 = run_table(ctx, "structured")
     shutil.rmtree(d2, ignore_errors=True)
@@ -195,11 +195,12 @@ def c03(ctx):
 
 
 def _set_flag(rows, rng):
-    cand = [i for i, r in enumerate(rows) if len(r) >= 85]
+    cand = [i for i, r in enumerate(rows) if len(r) >= 97]
     if not cand:
         return None
     i = rng.choice(cand)
-    rows[i][60 + rng.randrange(16)] = 0
+    # one of the 16 equivalence flags, or one of the "other ways" flags that C03 owns (1-7)
+    rows[i][rng.choice([61 + rng.randrange(16), 89 + rng.randrange(7)])] = 0
     return i
 
 
